@@ -36,6 +36,32 @@ CLAIMED["C01"] = dict(
     technique="Coq proof (binding = reference view) + vm_compute correspondence on recording callables",
     design="4/C01")
 
+CLAIMED["C02"] = dict(
+    text=("fdl.build modelled as a generic memoized post-order traversal over a heap with uninterpreted "
+          "callables (Traverse.mvisit + Build.build_node); theorems: every reachable object processed exactly "
+          "once, children first, memo is a function, fresh distinct results for distinct instances, result "
+          "mirrors the configuration, input heap untouched / new objects disjoint, fuel suffices. The model is "
+          "evaluated in Coq on random DAGs and compared with the implementation's invocation order and built "
+          "object graph up to a sharing-preserving isomorphism; an independent Python oracle checks the "
+          "property text (exactly-once, dependencies first, same->same / distinct->distinct, builds disjoint)."),
+    note=COMMON_NOTE + " Python object identity / no id reuse while referenced is assumed by the model "
+         "(ids are never recycled) and exercised by the temporaries + gc stream; recursion depth is unbounded "
+         "in the model (the harness checks deep chains give RecursionError or a correct result).",
+    technique="Coq proof (memoized DFS invariant) + vm_compute correspondence with isomorphism check",
+    design="4/C02")
+CLAIMED["C05"] = dict(
+    text=("Build model with a failure oracle and the in-build flag: on failure at node k the log is exactly "
+          "what completed before, k is reachable, the input heap is unchanged and the flag is reset; evaluated "
+          "in Coq with every Config node of every generated DAG as crash point (fault enumeration) against "
+          "the implementation's invocation log; the oracle checks exception class, message prefix, that the "
+          "reported path leads to the failing Buildable, no later invocation, configuration unchanged, next "
+          "build normal, nested build rejected, for 10 exception-class shapes."),
+    note=COMMON_NOTE + " Exception-class proxying (ExceptionProxy) is Python runtime behaviour decided by the "
+         "harness oracle only. Known findings: StopIteration -> RuntimeError; path through a **kwargs entry "
+         "named like a positional-only parameter.",
+    technique="Coq proof (failure prefix / purity / flag) + fault enumeration correspondence",
+    design="4/C05")
+
 PENDING_REASON = "check not built yet in this session (work in progress; see DESIGN.md section 4)"
 
 
